@@ -246,6 +246,8 @@ def declare(w):
             ("pending-task-is-marked-running", z3.Implies(z3.And(R0 != 0, inR, o == O_MAILBOX), z3.And(h("Reply", R0, "running"), h("Reply", R0, "_result_ready") != 0,
                                                                                                    z3.Not(ev_set(h, h("Reply", R0, "_result_ready")))))),
             ("mailbox-content-is-a-reply-with-event", z3.Implies(T != 0, z3.And(h("Reply", T, "_result_ready") != 0, role(h, h("Reply", T, "_result_ready")) == 2))),
+            # what sits in the mailbox was handed to the primary thread: waiting, being run by it, or finished
+            ("mailbox-task-belongs-to-the-primary-thread", z3.Implies(T != 0, z3.Or(owner(h, T) == O_MAILBOX, owner(h, T) == O_PRIMARY, owner(h, T) == O_DONE))),
         ]
 
     w.pool_inv = inv
@@ -337,7 +339,11 @@ def declare(w):
     w.add(Contract(f"{GB}:WorkerPool.trigger_shutdown", {"self": REF("WorkerPool")}, requires=has_lock, linearize_at_lock=True,
                    modifies=lambda a, h: POOLMOD(a, h) + [("Event", P(h, a.self, "_primary_thread_task_ready"), "$set")],
                    cases=[Case("ok", post=lambda a, h, h2, r: [P(h2, a.self, "_shuttingdown"), P(h2, a.self, "_running") == P(h, a.self, "_running"),
-                                                               z3.Implies(P(h, a.self, "_primary_thread_task_ready") != 0, ev_set(h2, P(h, a.self, "_primary_thread_task_ready")))])],
+                                                               z3.Implies(P(h, a.self, "_primary_thread_task_ready") != 0, ev_set(h2, P(h, a.self, "_primary_thread_task_ready"))),
+                                                               # the primary thread is woken with an empty mailbox or with a task it has not finished: never with a finished one (it would run it again)
+                                                               z3.Implies(z3.And(P(h, a.self, "_primary_thread_task_ready") != 0, P(h2, a.self, "_primary_thread_task") != 0),
+                                                                          z3.And(P(h2, a.self, "_primary_thread_task") == P(h, a.self, "_primary_thread_task"),
+                                                                                 h("Reply", P(h, a.self, "_primary_thread_task"), "running")))])],   # Reply.run clears `running` when the task has finished
                    props=["C09", "C11"]))
 
     def ps_post(a, h, h2, r):
